@@ -562,7 +562,7 @@ func (g *layoutGen) hws() string {
 
 var identPool = []string{"a", "B", "x_y", "täsk", "_x", "default", "Ünï", "test", "atask", "tas", "ask", "clean", "世界", "a_task_b", "tasky", "SIZE", "ZIP_FILE", "Zz", "aZ", "abcdefghijklmnopqrstuvwxyz", "ABCDEFGHIJKLMNOPQRSTUVWXYZ", "ǅ", "ßẞ", "Ωmega", "дом", "אב", "aªb"}
 var strPool = []string{"", "x", "a b", "\nlead", "\n", "a\\tb", "C:\\dir\\new", "\\x41\\u00e9", "printf 'one\\ntwo\\n'", "\\", "**/*.go", "ü/é.txt", "f.txt", " ", "./bin/main", "{{x}}", "a,b", "(x)", "#no", "->", "task", ":=", "}", "{", "a\tb", "*.x", " ", "é"}
-var cmdPool = []string{"date +%Y%m%d", "printf '%s\\n' x", "echo 100%", "echo a", "go test ./...", "echo {{.X}}", "a", "echo \"hi\"", "x -> y", "echo a:=b", "ls (a)", "echo {", "mkdir -p {{.BIN}}/x", "echo $HOME", "echo 'q' | wc -l", "task x", "echo a,b", "echo {{.A}}{{.B}}", "b  c", "echo a\tb", "x \t", "echo {{", "e }} f", "echo é{{.X}}", "echo a ", "b \r c", "c  ", "x}}", "#{{y", "écho x", "xy}}", "}}}", "-v"}
+var cmdPool = []string{"date +%Y%m%d", "printf '%s\\n' x", "echo 100%", "echo a", "go test ./...", "echo {{.X}}", "a", "echo \"hi\"", "x -> y", "echo a:=b", "ls (a)", "echo {", "mkdir -p {{.BIN}}/x", "echo $HOME", "echo 'q' | wc -l", "task x", "echo a,b", "echo {{.A}}{{.B}}", "b  c", "echo a\tb", "x \t", "echo {{", "e }} f", "echo é{{.X}}", "echo a ", "b \r c", "c  ", "x}}", "#{{y", "écho x", "xy}}", "}}}", "-v", "echo a; echo b", "for i in 1 2; do echo $i; done", "echo \"a; b\"", ";", "echo {{  .X  }}", "x  ;  y"}
 var commentPool = []string{"!/usr/bin/env spok", "! DO NOT EDIT", " voilà", " Å", " хх", " a comment that is rather long: it goes on and on, well past one hundred columns, word after word after word, to the end", " hello", "x", " two words", "", " # inner", " task", "\ttabbed", " trailing  ", "  ", " ü", "task x() {}", " a := \"b\"", " cr\r", "\r", " ---- build ---- #", "##", " fixes issue #", "#", " x #\t"}
 
 func (g *layoutGen) name() string { return identPool[g.rng.Intn(len(identPool))] }
